@@ -1,5 +1,5 @@
 (* C02 walk theorems, part 2: the specification beyond the core grammar (extends TextDeSpec.spec_value;
-   that the two coincide wherever spec_value fits is NOT proved).  Definitions only.
+   that the two coincide wherever spec_value fits is Props/C02_ext.v C02_spec2_extends_spec_partial).  Definitions only.
 
    (Where TextDeSpec.spec_value fits, this specification is meant to say the same; it additionally gives
    meaning to `{}` / arrays where a map or struct is asked for, which spec_value calls UNFIT.)
